@@ -97,6 +97,14 @@ def finish(prop, obs, t0, level='proof', functions=None, bounds=None, trusted=No
         from . import reproduce
         try: obs = list(obs) + reproduce.battery_after_inconclusive(prop, obs)
         except Exception as e: print(f'   (native battery after inconclusive verdict could not run: {type(e).__name__}: {str(e)[:200]})')
+    if not any(o.status in ('violated', 'inconclusive') for o in obs) and os.environ.get('DV_NO_BATTERY') != '1':
+        # every obligation discharged: the native battery of the property is still run as a differential safety net (seconds once the
+        # replay binary is built).  It cannot turn anything into "held" - that has been decided by the solver - but a concrete
+        # disagreement between the real build (dev profile, debug assertions on) and the reference is a violation the symbolic engines
+        # missed (e.g. behaviour that exists only under debug assertions, which the MIR dump compiles out).
+        from . import reproduce
+        try: obs = list(obs) + reproduce.battery_always(prop)
+        except Exception as e: print(f'   (native battery could not run: {type(e).__name__}: {str(e)[:200]})')
     for o in obs:
         if o.status == 'violated':
             kf = finding_for(prop, o.key) if o.key else None
